@@ -436,7 +436,7 @@ def check_C01(ctx):
         check_gen_position(ctx, line)
     n = 1500 if ctx.quick else 40000
     fens = ctx.gen.positions(n)
-    fens += synthetic_positions(ctx)
+    fens += synthetic_positions(ctx) + high_mobility_positions(ctx) + promo_pin_families()
     for fen in fens:
         check_gen_position(ctx, fen)
     ctx.sample({'input': 'gen ' + fens[1], 'engine': [x[:120] for x in ctx.rust.ask('gen ' + fens[1])[:3]], 'rules': ctx.model.ask('oracle legal ' + fens[1])[0][:160]})
@@ -457,6 +457,61 @@ def check_C01(ctx):
             for f in frontier[: (150 if ctx.quick else 100000)]:
                 check_gen_position(ctx, f)
                 ctx.count('tree-positions')
+
+
+def color_mirror_fen(fen):
+    """ranks flipped, colours and mover swapped (castling rights swapped, e.p. square mirrored)"""
+    p = fen.split()
+    rows = p[0].split('/')[::-1]
+    board = '/'.join(''.join(c.swapcase() if c.isalpha() else c for c in r) for r in rows)
+    side = 'b' if p[1] == 'w' else 'w'
+    cast = ''.join(sorted((c.swapcase() for c in p[2]), key=lambda c: 'KQkq'.index(c))) if p[2] != '-' else '-'
+    ep = p[3] if p[3] == '-' else p[3][0] + str(9 - int(p[3][1]))
+    return ' '.join([board, side, cast, ep] + p[4:])
+
+
+def high_mobility_positions(ctx):
+    """many pieces with long lines: move lists far beyond what ordinary play produces (the record position with 218 legal
+    moves, many-queen boards for both colours, random boards with 6-9 queens)"""
+    base = ['R6R/3Q4/1Q4Q1/4Q3/2Q4Q/Q4Q2/pp1Q4/kBNN1KB1 w - - 0 1', '6k1/5pp1/1Q3Q2/4Q3/2Q3Q1/Q4Q2/6PP/R4RK1 w - - 0 1',
+            '3Q4/1Q4Q1/4Q3/2Q4R/Q4Q2/3Q4/1Q4Rp/1K1BBNNk w - - 0 1', 'QQQQQQ2/8/8/2k5/8/8/6K1/8 w - - 0 1',
+            'Q6Q/8/2Q2Q2/8/8/2Q2Q2/6PP/Q5Kk w - - 0 1']
+    rng = random.Random(ctx.seed + 77)
+    for _ in range(6 if ctx.quick else 60):
+        b = ['1'] * 64
+        b[rng.choice([56, 57, 62, 63])] = 'K'
+        ks = rng.choice([0, 1, 6, 7]); b[ks] = 'k'
+        free = [i for i in range(64) if b[i] == '1' and abs(i // 8 - ks // 8) > 1 or abs(i % 8 - ks % 8) > 1 and b[i] == '1']
+        for sq in rng.sample(free, rng.choice([6, 7, 8, 9])):
+            if b[sq] == '1': b[sq] = 'Q'
+        base.append(board_to_rows(b) + ' w - - 0 1')
+    out = []
+    for f in base:
+        for x in (f, color_mirror_fen(f)):
+            w = ctx.model.ask('oracle wf ' + x + ' ; ') if getattr(ctx, 'model', None) else ['wf 1 nk 1 notok 0 key 1']
+            if w and w[0].startswith('wf 1 nk 1'):
+                out.append(x)
+    return out
+
+
+def promo_pin_families():
+    """two pawns can capture-promote on the same square and exactly one of them is pinned (by a rook on its own file, so
+    it cannot push either): both colours, every target file, either pawn pinned"""
+    out = []
+    for tf in range(1, 7):
+        for pinned_left in (True, False):
+            b = ['1'] * 64
+            b[tf] = 'n'                          # the piece to be captured, on rank 8
+            lf, rf = tf - 1, tf + 1
+            b[8 + lf] = 'P'; b[8 + rf] = 'P'
+            pf = lf if pinned_left else rf       # file of the pinned pawn
+            b[pf] = 'r'                          # rook in front of it, on rank 8
+            b[56 + pf] = 'K'                     # own king at the bottom of that file
+            bk = 31 if pf < 4 else 24            # the other king, out of the way
+            b[bk] = 'k'
+            fen = board_to_rows(b) + ' w - - 0 1'
+            out += [fen, color_mirror_fen(fen)]
+    return out
 
 
 def synthetic_positions(ctx):
@@ -756,7 +811,7 @@ def check_C14(ctx):
                 ctx.evaluations += 1; ctx.count('published-values')
                 if e != [str(v)]:
                     ctx.oracle_fail('perft-differs-from-published-value', f'perft {fen} ; {d}', {'engine': e, 'published': v})
-    fens = ctx.gen.positions(120 if ctx.quick else 1500) + synthetic_positions(ctx)[:40]
+    fens = ctx.gen.positions(120 if ctx.quick else 1500) + synthetic_positions(ctx)[:40] + promo_pin_families() + high_mobility_positions(ctx)[:8]
     for fen in load_regressions('C14') + fens:
         info = legal_info(ctx, fen)
         if info: classify(ctx, fen, *info)
@@ -1495,6 +1550,9 @@ def shuffle_games(ctx, n):
     out = []
     for i in range(n):
         base = bases[i % len(bases)]
+        if i % 3 == 1:
+            # a base given with a running half-move clock: more reversible plies "before" the game than are recorded
+            base = with_halfmove(base, rng.choice([1, 3, 7, 12, 40, 77]))
         fen = base
         moves = []
         prev = []
@@ -1601,6 +1659,14 @@ def check_C09(ctx):
         for opts in [f'depth={d} maxtime=0 trace=full', f'depth={d} pollmask={mask} trace=full inject=2:ucinewgame']:
             so = run_search(ctx, pos, opts)
             judge_stop(ctx, f'search {pos} ; {opts}', so, first_legal[0] if first_legal else None)
+        # an expired deadline must be seen at the very next poll even when input lines are queued (they stay queued)
+        for opts in [f'depth={d} maxtime=0 pollmask={mask} trace=full inject=0:isready inject=0:isready inject=1:isready inject=2:isready',
+                     f'depth={d} maxtime=0 pollmask={mask} trace=full inject=0:isready inject=0:d inject=1:stop']:
+            so = run_search(ctx, pos, opts)
+            ctx.count('deadline-with-queued-input')
+            judge_stop(ctx, f'search {pos} ; {opts}', so, first_legal[0] if first_legal else None)
+            if len(so.r.get('polls', [])) != 1 or so.readyok != 0:
+                ctx.oracle_fail('expired-deadline-not-seen-at-the-next-poll', f'search {pos} ; {opts}', {'polls': so.r.get('polls', [])[:6], 'readyok': so.readyok})
     # real time: the deadline is honoured (budget 0 and small budgets answer promptly)
     for form, limit in [('go movetime 0', 1.0), ('go movetime 50', 1.5), ('go wtime 40 btime 40', 1.0), ('go wtime 1900 btime 1900 winc 400 binc 400', 1.0)]:
         t0 = time.time()
